@@ -22,12 +22,16 @@ from vf import explore
 
 ID = "C11"
 LEVEL = "model_checking"
-RULE = ("product of per-position component alphabets (int literals -4..3, ':', '::', every lo:hi:st with lo,hi in "
-        "{omitted,-5..5}, st in {omitted,1,2,-1,-2}; tensor components i, I, i:i+1, i:j, i:, :j, i::-1, :j:-1, "
-        "i:j:-1, ::k, i:j:k) for index tuples of length <= rank; each expression decorated once per rank and "
-        "evaluated on every shape with dims in 1..4 and every valuation of its tensor parameters from a stated "
-        "finite set; distinct_nontrivial = distinct (rank, expression) for which graph or eager produced a tensor "
-        "that was compared with numpy")
+RULE = ("product of per-position component alphabets, all dimensions exhaustive: FULL = 729 literal components (int "
+        "literals -4..3, ':', '::', every lo:hi:st with lo,hi in {omitted,-5..5} and st in {omitted,1,2,-1,-2}), "
+        "RED = 53 (ints {-4,-1,0,1,3}, ':', lo,hi in {omitted,-1,1,5} x st in {omitted,2,-1}), RED41 (rank 3), MINI = 7; "
+        "tensor components TENS = i, I, i:i+1, i:j, i:, :j, i::-1, :j:-1, i:j:-1, ::k, i:j:k (i,j,k 0-d INT64 "
+        "parameters, I a 1-D INT64 parameter); index tuples of length <= rank; each expression is decorated/exported "
+        "once per rank and evaluated on every shape with dims in 1..4 and every valuation of its tensor parameters "
+        "from the stated finite set (full: i,j in -5..5, k in {1,2,-1,-2}, 7 dim-relative 1-D tensors incl. empty "
+        "and out of range; red/small: subsets).  See coverage.families for the exact product per tier.  "
+        "distinct_nontrivial = distinct (rank, expression) for which graph or eager produced a tensor that was "
+        "compared with numpy")
 ASSUMPTIONS = [
     "numpy basic/advanced indexing is the reference; a 0-d INT64 tensor index denotes the Python int of its value",
     "onnxruntime CPU kernels (Slice, Gather, Squeeze, Concat, Reshape, Add, Identity) implement the ONNX spec",
@@ -710,6 +714,13 @@ def minimise(expr, rank, shape, vals, memo, side, kind):
                         vals = trial
                         changed = True
                         break
+        # smallest dims that still fail (so that the classes, which are relative to the dims, converge)
+        for a in range(rank):
+            for d in range(1, shape[a]):
+                tshape = shape[:a] + (d,) + shape[a + 1:]
+                if fails(expr, None, tshape):
+                    shape = tshape
+                    break
         if (expr, vals, shape) == before:
             break
     classes = " + ".join(classify(code, p, shape[p], vals) for p, code in enumerate(expr))
@@ -802,6 +813,8 @@ def summarize(items, results, tier):
                 paths[k[5:]] = paths.get(k[5:], 0) + v
             elif k.startswith(("graph-err:", "eager-err:", "graph-refused-static:")):
                 refusals[k] = refusals.get(k, 0) + v
-    return {"graph_op_paths": dict(sorted(paths.items(), key=lambda kv: -kv[1])),
+    cpu_ms = sum((r.get("counts") or {}).get("cpu_ms", 0) for r in results)
+    return {"worker_cpu_s": round(cpu_ms / 1000.0, 1),
+            "graph_op_paths": dict(sorted(paths.items(), key=lambda kv: -kv[1])),
             "distinct_graph_op_paths": len(paths),
             "refusal_histogram": dict(sorted(refusals.items(), key=lambda kv: -kv[1])[:60])}
